@@ -8,8 +8,8 @@ PROP = "C03"
 RULE = ("(a) partition-only histories: every interleaving class of deepen() / make_children(leaf, newlayer = leaf at "
         "deepest level) on all 11 partition variants, walker after every operation and an icontract class invariant "
         "on the real class; (b) runs of all 19 algorithm variants, walker on every partition of the run (incl. each "
-        "base learner of POO/GPO) after construction, after every receive_reward, after get_last_point and at the "
-        "end; non-trivial = depth >= 2 and >= 5 operations (a) / >= 30 rounds (b)")
+        "base learner of POO/GPO) after construction, after every receive_reward, after every get_last_point (queried "
+        "between rounds - sparse or after every round - and between pull and receive_reward) and at the end; non-trivial = depth >= 2 and >= 5 operations (a) / >= 30 rounds (b)")
 ASSUMPTIONS = [
     "list aliasing as such is not judged, only its observable consequence (a child list holding another cell's children)",
     "VROOM on non-binary partitions, GPO without budget etc. crash (known findings of C01); the tree is judged up to the crash",
@@ -28,7 +28,9 @@ def gen_cases(rng, tier, count=None):
             if a in C.TREE_BANDITS:
                 from .treeshared import tree_params
                 c["params"] = tree_params(rng, a)
-            out.append(c)
+            if rng.random() < 0.4:
+                c["reward"]["family"] = str(rng.choice(["zero", "tied", "const", "twoval", "cl_step"]))
+            out.append(gen.add_midqueries(rng, gen.add_queries(rng, c, 0.5), 0.25))
             continue
         name = C.PART_NAMES[i % len(C.PART_NAMES)]
         dim = int(rng.integers(1, 4))
